@@ -71,26 +71,22 @@ theorem parseNotations_errors_positioned (ops : List String) (ns : List Comment)
     exact fold ns _ _ hall heq
   · cases h
 
-/-- **the hook lookup crashes exactly on functions with fewer than two parameters** whose result
-shape is acceptable (DESIGN §5 #19: `make([]types.Type, n-2)`). -/
-theorem lookupManipulator_panic_iff (name optName pos : String) :
-    (∃ s, lookupManipulatorFunc env sc name optName pos = .panic s) ↔
-    ∃ sig, lookupType env sc name = .func sig ∧ sig.params.length < 2 ∧
-      (match sig.results with | [] => true | [e] => env.isErrorType e | _ => false) = true := by
+/-- **the hook lookup never crashes** (since the repair of DESIGN §5 #19 a function with fewer than
+two parameters is refused with a diagnostic) -/
+theorem lookupManipulator_no_panic (name optName pos s : String) :
+    lookupManipulatorFunc env sc name optName pos ≠ .panic s := by
   unfold lookupManipulatorFunc
-  cases hl : lookupType env sc name with
+  cases lookupType env sc name with
   | notFound => simp
   | notFunc => simp
   | func sig =>
-    simp only [FuncLookup.func.injEq, exists_eq_left']
-    match hr : sig.results, hp : sig.params with
-    | [], [] => simp
-    | [], [_] => simp
-    | [], _ :: _ :: _ => simp
-    | [e], [] => cases he : env.isErrorType e <;> simp [he]
-    | [e], [_] => cases he : env.isErrorType e <;> simp [he]
-    | [e], _ :: _ :: _ => cases he : env.isErrorType e <;> simp [he]
-    | _ :: _ :: _, _ => simp
+    simp only
+    cases badHookResult env sig.results
+    · simp only [Bool.false_eq_true, ↓reduceIte]
+      cases sig.params with
+      | nil => simp
+      | cons d rest => cases rest <;> simp
+    · simp
 
 theorem styleEffect_no_panic (o : Options) (args : List String) (s : String) : styleEffect o args ≠ .panic s := by
   unfold styleEffect; split
@@ -123,27 +119,27 @@ theorem convEffect_no_panic (o : Options) (pos : String) (args : List String) (s
     convEffect o pos args ≠ .panic s := by
   unfold convEffect; split <;> simp
 
-/-- **crash sites of one notation line, exactly**: `:literal` whose text the second regexp does
-not match, and the two hook notations when the lookup crashes. No other notation can crash. -/
-theorem notationEffect_panic_sites (opts : Options) (pos name rest s : String)
-    (h : notationEffect env sc eng opts pos name rest = .panic s) :
-    (name = "literal" ∧ matchLiteral rest = none) ∨
-    ((name = "preprocess" ∨ name = "postprocess") ∧
-      ∃ a opt, (fields rest).head? = some a ∧ lookupManipulatorFunc env sc a opt pos = .panic s) := by
-  have hook : ∀ (optName : String) (set : ManipOpt → Options),
-      hookEffect env sc pos optName (fields rest) set = .panic s →
-      ∃ a opt, (fields rest).head? = some a ∧ lookupManipulatorFunc env sc a opt pos = .panic s := by
-    intro optName set hh
-    unfold hookEffect at hh
-    split at hh
-    · cases hh
-    · rename_i a tl hargs
-      split at hh
-      · cases hh
-      · cases hh
-      · rename_i s' hs'
-        cases hh
-        exact ⟨a, optName, by simp [hargs], hs'⟩
+theorem literalEffect_no_panic (o : Options) (pos rest : String) (args : List String) (s : String) :
+    literalEffect o pos rest args ≠ .panic s := by
+  unfold literalEffect; split
+  · split <;> simp
+  · simp
+
+theorem hookEffect_no_panic (pos optName : String) (args : List String) (set : ManipOpt → Options) (s : String) :
+    hookEffect env sc pos optName args set ≠ .panic s := by
+  unfold hookEffect; split
+  · simp
+  · split
+    · simp
+    · simp
+    · rename_i s' hs'
+      exact absurd hs' (lookupManipulator_no_panic env sc _ _ _ _)
+
+/-- **T14.1a (no notation line can crash the parser).**  Before the repairs of DESIGN §5 #19 and of
+the `:literal` regexp mismatch the hook lookup and the `:literal` case could; now none can. -/
+theorem notationEffect_no_panic (opts : Options) (pos name rest s : String) :
+    notationEffect env sc eng opts pos name rest ≠ .panic s := by
+  intro h
   unfold notationEffect at h
   simp only at h
   split at h
@@ -154,21 +150,53 @@ theorem notationEffect_panic_sites (opts : Options) (pos name rest s : String)
   · exact absurd h (skipEffect_no_panic eng _ _ _)
   · exact absurd h (mapEffect_no_panic _ _ _ _)
   · exact absurd h (convEffect_no_panic _ _ _ _)
-  · left
-    unfold literalEffect at h
-    split at h
-    · split at h
-      · cases h
-      · rename_i hl; exact ⟨rfl, hl⟩
-    · cases h
-  · exact Or.inr ⟨Or.inl rfl, hook _ _ h⟩
-  · exact Or.inr ⟨Or.inr rfl, hook _ _ h⟩
+  · exact absurd h (literalEffect_no_panic _ _ _ _ _)
+  · exact absurd h (hookEffect_no_panic env sc _ _ _ _ _)
+  · exact absurd h (hookEffect_no_panic env sc _ _ _ _ _)
 
-/-- witnesses: both crash sites are reachable -/
-example : matchLiteral "A B" = none ∧ (fields "A B").length = 2 := by decide
+theorem applyNotation_no_panic (ops : List String) (st : ParseResult × String) (n : Comment) (s : String) :
+    applyNotation env sc eng ops st n ≠ .panic s := by
+  obtain ⟨res, pr⟩ := st
+  unfold applyNotation
+  simp only
+  split
+  · simp
+  · split
+    · simp
+    · split
+      · simp
+      · simp
+      · simp
+      · rename_i s' hs'
+        exact absurd hs' (notationEffect_no_panic env sc eng _ _ _ _ _)
+      · simp
 
-/-- the `:literal` crash needs a Unicode blank that `strings.Fields` splits on but RE2 `\\s` does
-not know; with ASCII blanks the regexp always matches when there are two fields -/
-example : matchLiteral "A  5 + 1 " = some "5 + 1 " := by decide
+/-- **T14.1b.** Parsing any list of notation lines — any byte strings — terminates with options or
+with a diagnostic, never with a crash. -/
+theorem parseNotations_no_panic (ops : List String) (ns : List Comment) (o : Options) (s : String) :
+    parseNotations env sc eng ops ns o ≠ .panic s := by
+  have fold : ∀ (ns : List Comment) (st : ParseResult × String) (p : String),
+      foldOutcome (applyNotation env sc eng ops) st ns ≠ .panic p := by
+    intro ns
+    induction ns with
+    | nil => intro st p; simp [foldOutcome]
+    | cons n rest ih =>
+      intro st p
+      simp only [foldOutcome]
+      cases ha : applyNotation env sc eng ops st n with
+      | ok st' => exact ih st' p
+      | error e => simp
+      | panic q => exact absurd ha (applyNotation_no_panic env sc eng ops st n q)
+  unfold parseNotations
+  split
+  · split <;> simp
+  · simp
+  · rename_i p hp
+    exact absurd hp (fold ns _ p)
+
+/-- regression witnesses of the `:literal` repair: ASCII blanks always match; the Unicode blank
+case is now a diagnostic -/
+example : matchLiteral "A  5 + 1 " = some "5 + 1 " ∧ matchLiteral "A\u00a0B" = none ∧ (fields "A\u00a0B").length = 2 := by
+  decide
 
 end Convergen.Props.C14
